@@ -82,3 +82,40 @@ func c21GenChains(t *rapid.T) c21Case {
 	c.G = g
 	return c
 }
+
+// c21GenCycles draws grammars with a ring of 2..4 nonterminals that have no node of their own
+// (`C: D ('k' -> K) | ('y' -> Y); D: E; E: C ('x' -> X)`): every node reported inside the ring
+// becomes a child of the enclosing annotated rule, any number of times, so the fields must be
+// lists.
+func c21GenCycles(t *rapid.T) c21Case {
+	c := c21Case{
+		Space:    rapid.Bool().Draw(t, "space"),
+		FileNode: rapid.Bool().Draw(t, "filenode"),
+		Opt:      rapid.Bool().Draw(t, "optimize"),
+		Seed:     rapid.IntRange(0, 1<<30).Draw(t, "seed"),
+	}
+	n := rapid.IntRange(2, 4).Draw(t, "ring")
+	g := egSpec{T: 7}
+	// NT 0: the annotated entry; NTs 1..n: the ring
+	g.NTs = append(g.NTs, &egNT{Name: "A", Node: "Top", Alts: []*egAlt{{Parts: []*egPart{{K: "t", Sym: 1}, {K: "n", Sym: 1}}}}})
+	leafNode := func(term int, node string) *egPart {
+		return &egPart{K: "grp", Alts: []*egAlt{{Parts: []*egPart{{K: "t", Sym: term}}, Node: node}}}
+	}
+	for i := 1; i <= n; i++ {
+		next := i%n + 1
+		nt := &egNT{Name: string(rune('A' + i))}
+		// the recursive alternative: next member, optionally followed by a reported token
+		rec := &egAlt{Parts: []*egPart{{K: "n", Sym: next}}}
+		if i == 1 || rapid.Bool().Draw(t, "tail") {
+			rec.Parts = append(rec.Parts, leafNode(2+i%4, fmt.Sprintf("K%d", i)))
+		}
+		nt.Alts = append(nt.Alts, rec)
+		if i == 1 || rapid.IntRange(0, 2).Draw(t, "base") == 0 {
+			nt.Alts = append(nt.Alts, &egAlt{Parts: []*egPart{leafNode(6, "Y")}}) // the way out
+		}
+		g.NTs = append(g.NTs, nt)
+	}
+	g.Inputs = []egInput{{NT: 0, Eoi: true}}
+	c.G = g
+	return c
+}
